@@ -231,6 +231,23 @@ func Build(d Desc) (*Node, error) {
 				return nil, err
 			}
 			n = &Node{Kind: "struct", Name: s, RT: t, Fields: fs}
+		case strings.HasPrefix(s, "struct-named:"):
+			// member names whose spelling depends on the HTML-escaping flag / that are multi-byte; a plain sibling after (or before)
+			name := map[string]string{"lt": "m<", "gt": ">m", "amp": "a&b", "mixed": "<&>", "u2": "m\u00e9"}[strings.TrimPrefix(s, "struct-named:")]
+			if name == "" {
+				return nil, fmt.Errorf("unknown step %q", s)
+			}
+			spine := *n
+			spine.Role, spine.Tag = "spine", `json:"`+name+`"`
+			fs := []*Node{&spine, sibling("int")}
+			if strings.HasSuffix(s, ":mixed") {
+				fs = []*Node{sibling("int"), &spine}
+			}
+			t, err := structOf(fs)
+			if err != nil {
+				return nil, err
+			}
+			n = &Node{Kind: "struct", Name: s, RT: t, Fields: fs}
 		case strings.HasPrefix(s, "embed"):
 			emb := *n
 			emb.Role, emb.Tag = "embedded", ""
